@@ -214,5 +214,8 @@ Obs == INSTANCE PipelineObs WITH
   aignored <- ignoredLines,
   adone <- KTerminated
 KRefines == Obs!AInit /\ [][Obs!ANext]_Obs!avars
+\* the abstract specification's own laws, read through the refinement mapping
+KObsCountersOK == Obs!ACountersOK
+KObsFinalOK == Obs!AFinalOK
 KTerminates == <>KTerminated
 =============================================================================
